@@ -480,6 +480,11 @@ class Gen:
                 j0 = rng.randrange(len(imp_lines))
                 imp_lines.insert(rng.randint(j0 + 1, len(imp_lines)), imp_lines[j0])
                 self.desc.features.add("import_listed_twice")
+            if self.use_core and rng.random() < 0.1:
+                # written in the style that predates the automatic import of the core definitions: the file names the
+                # package's own core_defs.yaml itself (write_closure puts the path of the package under test in)
+                imp_lines.insert(rng.randint(0, len(imp_lines)), "  - @PYRTMA_CORE_DEFS@")
+                self.desc.features.add("explicit_import_of_package_core_defs")
             head = "imports:" + (" null\n" if not imp_lines else "\n" + "\n".join(imp_lines) + "\n")
             files[paths[i]] = head + body
         # other spellings of the same YAML (per file): document markers, CRLF line ends, trailing comments, an empty
@@ -496,6 +501,14 @@ class Gen:
             if rng.random() < 0.12:
                 t = _re.sub(r"(?m)^(  K_\w+: [^'\n#]+)$", r"\1   # a remark", t)
                 self.desc.features.add("spelling_trailing_comment")
+            if rng.random() < 0.15:
+                # the top-level sections in another order than the template's (the grammar fixes none)
+                parts = _re.split(r"(?m)^(?=[a-z_]+:)", t)
+                if len(parts) > 2:
+                    blocks = [b if b.endswith("\n") else b + "\n" for b in parts[1:]]
+                    rng.shuffle(blocks)
+                    t = parts[0] + "".join(blocks)
+                    self.desc.features.add("spelling_sections_reordered")
             if rng.random() < 0.1:
                 t = "---\n" + t + "...\n"
                 self.desc.features.add("spelling_document_markers")
@@ -537,10 +550,11 @@ def write_closure(prog, root_dir):
     import os
     from pathlib import Path
     root_dir = Path(root_dir)
+    core = os.environ.get("VF_REPO", "/repo") + "/src/pyrtma/core_defs/core_defs.yaml"
     for rel, text in prog["files"].items():
         p = root_dir / rel
         p.parent.mkdir(parents=True, exist_ok=True)
-        p.write_text(text)
+        p.write_text(text.replace("@PYRTMA_CORE_DEFS@", core))
     if any("zz/../" in t for t in prog["files"].values()):
         for rel in prog["files"]:
             (root_dir / rel).parent.joinpath("zz").mkdir(exist_ok=True)
